@@ -6,7 +6,7 @@ import time
 
 from . import build
 
-EVID = os.path.join(build.VERIF, "evidence")
+EVID = os.environ.get("AGV_EVID") or os.path.join(build.VERIF, "evidence")
 REPORTS = os.path.join(EVID, "reports")
 KNOWN = os.path.join(build.VERIF, "known_findings.json")
 
